@@ -174,6 +174,17 @@ def do_ctype(cases, progress, markers=False, base=0):
     return res
 
 
+def do_extpy(cases):
+    """cparser._preprocess_extern_python on the text itself (no other pre-processing stage)"""
+    res = []
+    for c in cases:
+        try:
+            res.append(dict(exc=None, out=cparser._preprocess_extern_python(c["text"])))
+        except BaseException as e:
+            res.append(dict(exc=type(e).__name__, out=""))
+    return res
+
+
 def do_re(cases):
     return [cparser._r_int_literal.match(c["text"]) is not None for c in cases]
 
@@ -184,6 +195,8 @@ def main(payload):
     if payload["op"] == "ctype":
         return dict(results=do_ctype(payload["cases"], payload["progress"], payload.get("markers", False),
                                       payload.get("base", 0)))
+    if payload["op"] == "extpy":
+        return dict(results=do_extpy(payload["cases"]))
     return dict(results=do_re(payload["cases"]))
 
 
